@@ -22,12 +22,13 @@
 
 namespace bxdecay0 {
 
-  const std::map<std::string, bool> & traces()
+  namespace {
+  std::map<std::string, bool> _build_traces()
   {
     static bool devel = false;
     // devel = true;
-    static std::map<std::string, bool> _t;
-    if (_t.empty()) {
+    std::map<std::string, bool> _t;
+    {
       if (devel) {
         std::cerr << "[devel] bxdecay0::traces: "
                   << "Populating trace map..." << std::endl;
@@ -93,6 +94,14 @@ namespace bxdecay0 {
         }
       }
     }
+    return _t;
+  }
+  } // namespace
+
+  const std::map<std::string, bool> & traces()
+  {
+    // Built once, thread-safely (function-local static initialisation)
+    static const std::map<std::string, bool> _t(_build_traces());
     return _t;
   }
 
